@@ -76,6 +76,10 @@ def check_pair(spec: dict) -> dict:
         by_method = loc_a.contains(loc_b)
     if bool(by_method) != want:
         raise Violation("contains_method", {"got": by_method, "model": want})
+    with code_under_test("contains_total"):
+        by_operator = loc_b in loc_a
+    if bool(by_operator) != want:
+        raise Violation("contains_operator", {"got": by_operator, "model": want})
     from antismash.common.secmet.features import Feature
     try:
         feature_a, feature_b = Feature(loc_a, "misc_feature"), Feature(loc_b, "misc_feature")
